@@ -23,7 +23,7 @@ func VT_C10_ValuePullCancel() {
 	var wg sync.WaitGroup
 	wg.Add(3)
 	received, closed := 0, false
-	stopAfter := vt.Choose("consumerStopsAfter", vt.Bound("consumerStops", 2, 3)) // the consumer may stop receiving (without cancelling) after 0,1(,2) events
+	stopAfter := vt.Choose("consumerStopsAfter", vt.Bound("consumerStops", 2, 2)) // the consumer may stop receiving (without cancelling) after 0,1(,2) events
 	go func() { // consumer
 		defer wg.Done()
 		for received < stopAfter {
@@ -40,7 +40,7 @@ func VT_C10_ValuePullCancel() {
 		}
 		closed = true
 	}()
-	writes := vt.Choose("writes", vt.Bound("valueWrites", 1, 2)) + 1
+	writes := vt.Choose("writes", vt.Bound("valueWrites", 1, 1)) + 1
 	var errs [2]error
 	go func() { // writer
 		defer wg.Done()
